@@ -709,7 +709,7 @@ Proof.
   - exact H.
   - unfold submit. destruct (if check then verdict else None).
     + eapply sane_stat_eq; [apply stat_submit_tail|].
-      apply sane_set_stat; [right; right; left; reflexivity|exact H].
+      apply sane_set_stat; [right; right; left; reflexivity|]. apply sane_complete_set. exact H.
     + eapply sane_stat_eq; [apply stat_submit_tail|].
       apply sane_complete_set. apply sane_set_stat; [left; reflexivity|exact H].
   - unfold flush. destruct (earliest (set_errno 0 s) <? 0); [exact H|].
